@@ -1,5 +1,7 @@
 import PdshVerif.Dsh.FanG
 import PdshVerif.Dsh.FanRelay
+import PdshVerif.Dsh.FanX
+import PdshVerif.Dsh.FanPoll
 import PdshVerif.Base.Hex
 import Driver.Util
 
@@ -18,7 +20,20 @@ import Driver.Util
     fin W<i> <0|1>                   that stream is over (EOF or error seen, descriptor closed) -> ok | reject ..
     cfail W<i>                       rcmd_connect of target i failed: no streams            -> ok | reject ..
     (in relay mode every `ev` goes through `FanRelay.step`: a worker may leave its read loop only when its polled
-    streams are over, and reads happen only inside the loop)
+    streams are over, and reads happen only inside the loop; AND through `FanPoll.step`, the composition with the
+    loop as code (Props/C03 `returns_after_output_delivered_poll`): a read of n > 0 bytes is `arrive` + an `xpoll`
+    return reporting that descriptor, a close is `hup` + such a return, and the worker may leave the loop only when
+    the loop condition of the MODEL of `_rsh_thread`'s loop, C05's `pollStep` run on those bytes, is false)
+    ENVIRONMENT (`Dsh/FanX.lean`, the LTS of Props/C03 `X` / Props/C04 `X`; outside relay mode EVERY `ev` goes through
+    `FanX.step`, which wraps `FanG.step`):
+    initx <if|while> <setting> <N> <k> <soft> <hard>   start a new trace: `-k` or not, RLIMIT_NOFILE at the call of
+                                     dsh(); performs the prologue transition `nofile soft hard`   -> ok
+    ev D createfail <j>              pthread_create for worker j returned an error               -> ok | reject ..
+    lim <setting> <soft0> <hard0> <fanout_used> <soft>   `_increase_nofile_limit` as a function: what the run left in
+                                     opt->fanout and in the soft limit vs `FanX.increaseNofile`   -> ok | reject ..
+    end exit <code>                  the process exited inside dsh(): ok iff the model has exited with that status
+                                     (or, in relay mode / without a failed create, is not Final)
+    (`init` = `initx` with k = 0 and limits 0 0: nothing to raise.)
     After a reject every line up to the next `init` answers `skip`.
     The transition function is `PdshVerif.Dsh.FanG.step`, the one the theorems are about: the LTS with the
     signalling discipline left open.  An observed call is mapped to a label by what it DOES in the state it is made
@@ -37,6 +52,25 @@ structure Acc where
   evs : List (PdshVerif.Relay.Key × PdshVerif.Relay.LEv) := []
   sopt : Bool := false
   nofd : List Nat := []
+  pevs : List (Nat × PdshVerif.Relay.PEv) := []
+  ph : PdshVerif.Dsh.FanX.Phase := .running
+  kopt : Bool := false
+  termSent : Bool := false
+  soft : Nat := 0
+
+open PdshVerif.Dsh in
+def Acc.xst (a : Acc) (s : St) : FanX.St := { g := s, ph := a.ph, kopt := a.kopt, termSent := a.termSent, soft := a.soft }
+
+open PdshVerif.Dsh in
+def Acc.ofXst (a : Acc) (x : FanX.St) : Acc :=
+  { a with st := some x.g, ph := x.ph, kopt := x.kopt, termSent := x.termSent, soft := x.soft }
+
+open PdshVerif.Dsh in
+/-- start of a trace outside relay mode: `FanX.init`, then the prologue transition in the given environment -/
+def startX (v : Variant) (setting n : Nat) (k : Bool) (soft hard : Nat) : Acc :=
+  match FanX.step (FanX.init v setting n k) (.nofile soft hard true true) with
+  | some x => ({ dead := false } : Acc).ofXst x
+  | none => { dead := true }
 
 open PdshVerif.Dsh in
 def Acc.rst (a : Acc) (s : St) : FanRelay.St := { fan := s, evs := a.evs, sopt := a.sopt, nofd := a.nofd }
@@ -74,8 +108,36 @@ def parseLabels : List String → List Label
       | _ => []
   | _ => []
 
+open PdshVerif.Dsh PdshVerif.Relay in
+/-- parameters of the loop model in relay mode: what is written does not matter to the loop condition -/
+def pollParams (sopt : Bool) : Option FanPoll.Params :=
+  (mkFifoBuf 1).map fun b0 => { cfg := ⟨true, false, false, false, false⟩, names := fun _ => [], b0 := b0, sopt := sopt }
+
+open PdshVerif.Dsh in
+def Acc.pst (a : Acc) (s : St) : FanPoll.St := { fan := s, evs := a.pevs, nofd := a.nofd }
+
+open PdshVerif.Dsh PdshVerif.Relay in
+/-- a relay line as events of the worker's loop: the data (or the hang-up) arrives, `xpoll` reports that descriptor,
+    its handler runs -/
+def pollEvents : FanRelay.Label → List FanPoll.Label
+  | .ev k (.feed b) => [.pev k.1 (.arrive k.2 b), .pev k.1 (if k.2 then .poll none (some none) else .poll (some none) none)]
+  | .ev k .finish => [.pev k.1 (.hup k.2), .pev k.1 (if k.2 then .poll none (some none) else .poll (some none) none)]
+  | .cfail i => [.cfail i]
+  | .fan l => [.fan l]
+
+open PdshVerif.Dsh in
+def runPoll (P : FanPoll.Params) (p : FanPoll.St) (ls : List FanPoll.Label) : Option FanPoll.St := FanPoll.run P p ls
+
 /-- perform the observed call: the first candidate label that is enabled -/
 def stepObserved (s : St) (ls : List Label) : Option St := ls.findSome? (step s)
+
+open PdshVerif.Dsh in
+/-- the same through the environment LTS -/
+def stepObservedX (x : FanX.St) (ls : List Label) : Option FanX.St := ls.findSome? fun l => FanX.step x (.g l)
+
+/-- the candidate label that was taken (the first enabled one in the protocol LTS) -/
+def pickTaken (s : St) (ls : List Label) : Label :=
+  (ls.find? fun l => (step s l).isSome).getD (ls.headD (.d .lock))
 
 open PdshVerif.Dsh in
 /-- the same in relay mode -/
@@ -137,7 +199,33 @@ def stepLine (a : Acc) (line : String) : Acc × String :=
     match f.toNat?, n.toNat? with
     | some f, some n =>
       let v := if v = "if" then Variant.ifWait else Variant.whileWait
-      ({ st := some (init v f n), dead := false }, "ok")
+      (startX v f n false 0 0, "ok")
+    | _, _ => (a, "bad-line")
+  | ["initx", v, f, n, k, soft, hard] =>
+    match f.toNat?, n.toNat?, soft.toNat?, hard.toNat? with
+    | some f, some n, some soft, some hard =>
+      let v := if v = "if" then Variant.ifWait else Variant.whileWait
+      (startX v f n (k = "1") soft hard, "ok")
+    | _, _, _, _ => (a, "bad-line")
+  | ["lim", f, soft0, hard0, used, soft] =>
+    if a.dead then (a, "skip") else
+    match f.toNat?, soft0.toNat?, hard0.toNat?, soft.toNat? with
+    | some f, some soft0, some hard0, some soft =>
+      let r := PdshVerif.Dsh.FanX.increaseNofile f soft0 hard0 true true
+      if used.toInt? ≠ some (Int.ofNat r.2) then
+        (a, s!"reject fanout in use after _increase_nofile_limit: impl={used} model={r.2} (setting {f}, limits {soft0}/{hard0})")
+      else if soft ≠ r.1 then
+        (a, s!"reject soft descriptor limit after _increase_nofile_limit: impl={soft} model={r.1} (setting {f}, limits {soft0}/{hard0})")
+      else (a, "ok")
+    | _, _, _, _ => (a, "bad-line")
+  | ["ev", "D", "createfail", j] =>
+    if a.dead then (a, "skip") else
+    match a.st, j.toNat? with
+    | some s, some j =>
+      if a.relay then (a, "bad-line") else
+      match PdshVerif.Dsh.FanX.step (a.xst s) (.createFail j) with
+      | some x => (a.ofXst x, "ok")
+      | none => ({ a with dead := true }, s!"reject a failing pthread_create is not possible here in the model: worker {j} ({showSt s})")
     | _, _ => (a, "bad-line")
   | ["initr", v, f, n, sopt] =>
     match f.toNat?, n.toNat? with
@@ -151,7 +239,13 @@ def stepLine (a : Acc) (line : String) : Acc × String :=
     | some s, some l =>
       if !a.relay then (a, "bad-line") else
       match PdshVerif.Dsh.FanRelay.step (a.rst s) l with
-      | some r => (a.ofRst r, "ok")
+      | some r =>
+        match pollParams a.sopt with
+        | none => (a.ofRst r, "ok")
+        | some P =>
+          match runPoll P (a.pst s) (pollEvents l) with
+          | some p => ({ a.ofRst r with pevs := p.evs }, "ok")
+          | none => ({ a with dead := true }, s!"reject relay event not enabled in the composition with the loop model (FanPoll): {line} ({showSt s})")
       | none => ({ a with dead := true }, s!"reject relay event not enabled in the composed model: {line} ({showSt s})")
     | _, _ => (a, "bad-line")
   | "st" :: rest =>
@@ -169,21 +263,42 @@ def stepLine (a : Acc) (line : String) : Acc × String :=
     | some s, ls =>
       if a.relay then
         match stepObservedR (a.rst s) ls with
-        | some r => (a.ofRst r, "ok")
+        | some r =>
+          -- the same step in the composition with the loop as code: the guard of destroyBegin is pollStep's loop condition
+          let okPoll := match pollParams a.sopt with
+            | none => true
+            | some P => (PdshVerif.Dsh.FanPoll.step P (a.pst s) (.fan (pickTaken s ls))).isSome
+          if okPoll then (a.ofRst r, "ok")
+          else ({ a with dead := true }, s!"reject the worker leaves its read loop but the loop condition of the loop model (pollStep, FanPoll) still holds: {" ".intercalate rest} ({showSt s})")
         | none =>
           let why := if (stepObserved s ls).isSome then " (enabled in the protocol LTS, refused by the composition: the worker leaves its read loop before its polled streams are over)" else ""
           ({ a with dead := true }, s!"reject not enabled in the model{why}: {" ".intercalate rest} ({showSt s})")
       else
-      match stepObserved s ls with
-      | some s' => ({ a with st := some s' }, "ok")
-      | none => ({ a with dead := true }, s!"reject not enabled in the model: {" ".intercalate rest} ({showSt s})")
+      match stepObservedX (a.xst s) ls with
+      | some x => (a.ofXst x, "ok")
+      | none =>
+        let why := if (stepObserved s ls).isSome then " (pdsh has exited in the model: pthread_create failed)" else ""
+        ({ a with dead := true }, s!"reject not enabled in the model{why}: {" ".intercalate rest} ({showSt s})")
     | none, _ => ({ a with dead := true }, "reject unknown event " ++ " ".intercalate rest)
+  | ["end", "exit", code] =>
+    if a.dead then (a, "skip") else
+    match a.st with
+    | some s =>
+      match a.ph with
+      | .exited c =>
+        if code.toNat? = some c then (a, "ok")
+        else (a, s!"reject exit status after a failed pthread_create: impl={code} model={c}")
+      | _ =>
+        if s.dpc = .returned then (a, s!"reject the process exited inside dsh() but the model has returned ({showSt s})")
+        else (a, "ok")
+    | none => (a, "bad-line")
   | ["end", status] =>
     if a.dead then (a, "skip") else
     match a.st with
     | some s =>
       if status = "ok" then
-        if s.dpc = .returned then (a, "ok") else (a, s!"reject run ended but the model is not final ({showSt s})")
+        if a.ph != .running then (a, s!"reject run ended normally but pdsh has exited in the model ({showSt s})")
+        else if s.dpc = .returned then (a, "ok") else (a, s!"reject run ended but the model is not final ({showSt s})")
       else if status = "deadlock" then
         if enabledNames s = [] then (a, "ok") else (a, s!"reject implementation deadlocked, model has enabled {enabledNames s}")
       else (a, "ok")
